@@ -472,7 +472,8 @@ Definition with_per_occurrence (b : bool) (F : facts) : facts :=
      f_mem_source_filter_exact := f_mem_source_filter_exact F;
      f_sqlite_source_filter_exact := f_sqlite_source_filter_exact F;
      f_mem_pending_read_complete := f_mem_pending_read_complete F;
-     f_sqlite_pending_read_complete := f_sqlite_pending_read_complete F |}.
+     f_sqlite_pending_read_complete := f_sqlite_pending_read_complete F;
+     f_mem_pending_in_place := f_mem_pending_in_place F |}.
 
 (* two events pending, OR trigger: the second launch does not carry the second event's arguments *)
 Lemma or_args_refuted : forall F, f_per_occurrence F = false ->
@@ -651,7 +652,7 @@ Lemma bounded_read_refuted : forall F,
   /\ let s3 := run F false [t_or_event; t_and_two] [ORecord 5 (ev 1); ORecord 0 (ev 2)] in
      launched (iteration_lim F false 1 [t_or_event; t_and_two] (iteration_lim F false 1 [t_or_event; t_and_two] s3)) = [].
 Proof.
-  intros F. destruct F as [guards clr perocc a1 a2 a3 a4 a5 a6 a7 a8 a9 a10 a11 a12 a13 a14 a15 a16 a17 a18 a19 a20 a21 a22 a23].
+  intros F. destruct F as [guards clr perocc a1 a2 a3 a4 a5 a6 a7 a8 a9 a10 a11 a12 a13 a14 a15 a16 a17 a18 a19 a20 a21 a22 a23 a24].
   destruct guards, perocc; vm_compute; repeat split; reflexivity.
 Qed.
 
@@ -663,3 +664,23 @@ Lemma reaches_subclass_refuted :
   reaches false 1 {| o_kind := 2; o_src := 1; o_aux := 0; o_n := 1 |} = true
   /\ reaches false 1 {| o_kind := 3; o_src := 1; o_aux := 0; o_n := 1 |} = true.
 Proof. split; reflexivity. Qed.
+
+(* ------------------------------------------------------------------ a reporter thread pre-empted inside its store *)
+Lemma in_drop_all : forall cl p w, In w (drop_all cl p) <-> In w p /\ ~ In w cl.
+Proof.
+  intros cl p w. unfold drop_all. rewrite filter_In. split; intros [H1 H2]; (split; [exact H1|]).
+  - apply negb_true_iff in H2. apply inb_false in H2. exact H2.
+  - apply negb_true_iff. apply inb_false. exact H2.
+Qed.
+
+Lemma record_after_clear_in_place : forall p cl v, In v (record_after_clear true p cl v).
+Proof. intros p cl v. unfold record_after_clear. apply in_or_app. right. left. reflexivity. Qed.
+
+Lemma record_after_clear_keeps : forall b p cl v w, In w p -> ~ In w cl -> In w (record_after_clear b p cl v).
+Proof.
+  intros b p cl v w Hp Hc. unfold record_after_clear.
+  destruct b; [apply in_or_app; left|]; apply in_drop_all; split; assumption.
+Qed.
+
+Lemma record_after_clear_rebound_refuted : forall p cl v, ~ In v p -> ~ In v (record_after_clear false p cl v).
+Proof. intros p cl v Hn H. unfold record_after_clear in H. apply in_drop_all in H. destruct H as [H _]. exact (Hn H). Qed.
